@@ -23,6 +23,9 @@
  *   returns, makes the whole plane inaccessible (instead of freeing it): any later access by the library, and any read past
  *   the end of a plane, faults; the handler prints `GUARDFAULT kind=past-end|after-send plane=<0..2> frame=<f> off=<bytes>`
  *   and exits with code 9.
+ * C27 option: final_nb=1 replaces the blocking final drain by non-blocking polling (svt_av1_enc_get_packet(..., 0) / svt_av1_get_recon
+ *   every ~300 us) until the EOS packet has been received.  callseed=<n> seeds the random call pattern (drain=3, delay_us)
+ *   independently of the content seed.
  * Exit code: 0 normal; 3 watchdog timeout (prints TIMEOUT first).
  */
 #include <stdio.h>
@@ -54,6 +57,7 @@ typedef struct {
     int w, h, n, bd, content, stride_extra, padfill, scribble, drain, drain_k, recon, decode, hex, dec_threads,
         dec16, watchdog, dirty, eos, pts_base, pts_step, delay_us, annexb, noinit_defaults, fg_skip, dumpcfg, padseed, tight, guard;
     int sse, dumpsse;                       /* C26: print SSE / SRCHEX / DECHEX lines for every decoded picture */
+    int final_nb, callseed;                 /* C27: non-blocking final drain; seed of the random call pattern (0: derived from seed) */
     uint64_t seed;
 } Params;
 
@@ -354,6 +358,7 @@ int main(int argc, char **argv) {
         PAR(decode) PAR(hex) PAR(dec_threads) PAR(dec16) PAR(watchdog) PAR(dirty) PAR(eos) PAR(pts_base) PAR(pts_step) PAR(delay_us)
         PAR(fg_skip) PAR(dumpcfg) PAR(padseed) PAR(tight) PAR(guard)
         PAR(sse) PAR(dumpsse)
+        PAR(final_nb) PAR(callseed)
 #undef PAR
         if (!strcmp(k, "seed")) P.seed = strtoull(eq + 1, NULL, 10);
         *eq = '=';
@@ -392,7 +397,7 @@ int main(int argc, char **argv) {
     }
     EbBufferHeaderType rb; memset(&rb, 0, sizeof(rb));
     rb.size = sizeof(rb); rb.n_alloc_len = (uint32_t)((size_t)P.w * P.h * 3 / 2 * (P.bd > 8 ? 2 : 1)) + 64; rb.p_buffer = malloc(rb.n_alloc_len);
-    Rng callrng = {P.seed ^ 0xCA11}, padrng = {(P.padseed ? (uint64_t)P.padseed * 0x9E3779B97F4A7C15ull : P.seed) ^ 0x9AD}, scr = {P.seed ^ 0x5C};
+    Rng callrng = {(P.callseed ? (uint64_t)P.callseed * 0x9E3779B97F4A7C15ull : P.seed) ^ 0xCA11}, padrng = {(P.padseed ? (uint64_t)P.padseed * 0x9E3779B97F4A7C15ull : P.seed) ^ 0x9AD}, scr = {P.seed ^ 0x5C};
     for (int f = 0; f < P.n; f++) {
         EbBufferHeaderType in; EbSvtIOFormat io; Pic pic;
         memset(&in, 0, sizeof(in));
@@ -413,6 +418,7 @@ int main(int argc, char **argv) {
         svt_av1_enc_send_picture(h, &in);
         /* final drain: blocking get_packet until the EOS packet (the documented blocking wait) */
         if (P.n > 0) {
+            if (P.final_nb) { while (!got_eos_pkt) { if (!poll_packets(&P, h, 0) && !poll_recon(&P, h, &rb)) usleep(300); else poll_recon(&P, h, &rb); } }
             while (!got_eos_pkt) { if (!poll_packets(&P, h, 1)) { printf("ERR blocking-get-returned-nothing\n"); break; } poll_recon(&P, h, &rb); }
             if (P.recon) { int spins = 0; while (!got_eos_recon && nrecs < P.n && spins < 20000) { if (!poll_recon(&P, h, &rb)) { usleep(500); spins++; } } }
             poll_recon(&P, h, &rb);
